@@ -18,6 +18,7 @@ SIG_PAIR = "C19/read_unicode_string/surrogate-pair-read-as-two-characters"
 SIG_NAME_UNENC = "C19/name/legacy-field-unencodable-in-save-encoding"
 SIG_NAME_LONG = "C19/name/legacy-field-longer-than-255-bytes-in-save-encoding"
 SIG_SJIS = "C19/pascal/shift_jis/python-codec-maps-U+00A5-U+203E-to-ascii-bytes"
+SIG_LR16 = "C19/name/no-unicode-block/encoding-not-forwarded-into-Lr16-Lr32-blocks"
 
 CLASSES = {
     "ascii": "aZ09 ~?_",
@@ -569,6 +570,9 @@ def run(ctx: core.Run):
         "PascalString (CAPTION_PASCAL / CLIPPING_PATH_NAME) is written with padding 1 and read with the default padding 2; harmless "
         "because the element is the whole resource payload (value round-trips; the reader may consume one byte of following data otherwise)",
         "read_unicode_string / read_pascal_string padding reads are lenient at the end of the stream (short read, no error): modelled as such",
+        "layer records of 16/32-bit documents live in Lr16/Lr32 tagged blocks, to which TaggedBlock.read/write do not forward the "
+        "`encoding` option: their legacy fields are always MacRoman (consistent in both directions; known finding for legacy-only names); "
+        "the byte-level comparison of the name path uses the encoding that actually reaches LayerRecord._write_extra",
         "the name setter tests MacRoman whatever the document encoding is: a name such as U+3042 gets '?' in the legacy field even when the "
         "file is saved as shift_jis; the unicode block keeps the name, so the property holds",
     ]
@@ -674,7 +678,7 @@ def name_path(ctx, drv, rng, quick, corp_strings, wellformed):
     pf = core.REPO / "tests" / "psd_files"
     fixtures = [f for f in fixtures if (pf / f).exists()]
     if not quick:
-        fixtures = sorted(p.name for p in pf.glob("*.psd"))
+        fixtures = sorted(str(p.relative_to(pf)) for p in list(pf.rglob("*.psd")) + list(pf.rglob("*.psb")))
 
     def mk_group():
         p = PSDImage.new("RGB", (8, 8))
@@ -722,11 +726,14 @@ def name_path(ctx, drv, rng, quick, corp_strings, wellformed):
         try:
             p = PSDImage.open(str(pf / fn))
             nl = len(list(p.descendants()))
-        except Exception:
+        except Exception as e:  # noqa
+            ctx.hist("fixture_not_used", "open:" + type(e).__name__)
             continue
         if nl == 0:
+            ctx.hist("fixture_not_used", "no-layers")
             continue
-        for j in range(2 if quick else 1):
+        ctx.hist("fixture_not_used", "used")
+        for j in range(2):
             n = rng.choice(names)
             enc = ENCODINGS[(k + j) % len(ENCODINGS)]
             if enc != "macroman":
@@ -750,7 +757,7 @@ def name_path(ctx, drv, rng, quick, corp_strings, wellformed):
             layer = list(psd.descendants())[idx]
             kind = layer.kind
         except Exception as e:  # noqa
-            ctx.skipped.append(f"name path: {label} could not be prepared ({type(e).__name__})") if len(ctx.skipped) < 10 else None
+            ctx.hist("name_doc_not_prepared", type(e).__name__)
             continue
         ctx.hist("name_layer_kind", kind)
         try:
@@ -771,40 +778,59 @@ def name_path(ctx, drv, rng, quick, corp_strings, wellformed):
                 ub = tb[12:12 + struct.unpack(">I", tb[8:12])[0]]
             except Exception as e:  # noqa
                 ub = ("err", ecls(e))
-        # the Pascal field as LayerRecord.write emits it
-        captured = []
+        # the Pascal field as the real save emits it for this record, and the encoding that reaches it
+        # (layer records inside Lr16/Lr32 blocks are written and read with the default MacRoman whatever
+        # `encoding` is passed to save/open: TaggedBlock.write does not forward it)
+        state = {"on": False, "enc": None, "lb": None}
         orig = LM.write_pascal_string
+        orig_we = LM.LayerRecord._write_extra
 
         def spy(fp, value, encoding="macroman", padding=2):
             start = fp.tell()
             w = orig(fp, value, encoding, padding)
-            cur = fp.tell()
-            fp.seek(start)
-            captured.append(fp.read(w))
-            fp.seek(cur)
+            if state["on"] and state["lb"] is None:
+                cur = fp.tell()
+                fp.seek(start)
+                state["lb"] = fp.read(w)
+                fp.seek(cur)
             return w
+
+        def we(self, fp, encoding, version):
+            if self is rec:
+                state["on"], state["enc"] = True, encoding
+            try:
+                return orig_we(self, fp, encoding, version)
+            finally:
+                state["on"] = False
 
         out = io.BytesIO()
         LM.write_pascal_string = spy
+        LM.LayerRecord._write_extra = we
+        rec_err = None
         try:
             try:
-                rec.write(io.BytesIO(), encoding=enc)
-                lb = captured[-1] if captured else None
-                rec_err = None
+                psd.save(out, encoding=enc)
             except Exception as e:  # noqa
-                lb, rec_err = None, ecls(e)
+                rec_err = ecls(e)
         finally:
             LM.write_pascal_string = orig
-        try:
-            psd.save(out, encoding=enc)
-            q = PSDImage.open(io.BytesIO(out.getvalue()), encoding=enc)
-            l2 = list(q.descendants())[idx]
-            res = ("ok", l2.name, l2._record.name, l2.kind)
-        except Exception as e:  # noqa
-            res = ("err", ecls(e))
+            LM.LayerRecord._write_extra = orig_we
+        lb = state["lb"]
+        enc_eff = state["enc"] or enc
+        if enc_eff != enc:
+            ctx.hist("name_effective_encoding_differs", f"{enc}->{enc_eff}")
+        if rec_err is not None:
+            res = ("err", rec_err)
+        else:
+            try:
+                q = PSDImage.open(io.BytesIO(out.getvalue()), encoding=enc)
+                l2 = list(q.descendants())[idx]
+                res = ("ok", l2.name, l2._record.name, l2.kind)
+            except Exception as e:  # noqa
+                res = ("err", ecls(e))
         # --- property on the real code
         if res[0] == "err":
-            e0 = try_encode(mem_legacy, enc)
+            e0 = try_encode(mem_legacy, enc_eff)
             if res[1] == "UnicodeError" and e0 is None:
                 sig = SIG_NAME_UNENC
             elif res[1] == "struct.error" and e0 is not None and len(e0) > 255:
@@ -818,12 +844,12 @@ def name_path(ctx, drv, rng, quick, corp_strings, wellformed):
         elif res[3] != kind:
             ctx.fail("C19/name/layer-kind-changed", "the renamed layer changed kind after save/open", inp, res[3], kind)
         # --- byte-level correspondence with the model
-        tab = ";".join(sorted({table_entry(n, enc), table_entry("?", enc), table_entry(mem_legacy, enc)}))
+        tab = ";".join(sorted({table_entry(n, enc_eff), table_entry("?", enc_eff), table_entry(mem_legacy, enc_eff)}))
         reqs.append(("uni.name", "table", "set", cps(n), "-", tab))
-        info.append((inp, mem_legacy, lb, ub, rec_err, res, enc))
-        if enc in LEAN_CODEC:
-            reqs.append(("uni.name", LEAN_CODEC[enc], "set", cps(n), "-"))
-            info.append((inp, mem_legacy, lb, ub, rec_err, res, enc))
+        info.append((inp, mem_legacy, lb, ub, rec_err, res, enc_eff))
+        if enc_eff in LEAN_CODEC:
+            reqs.append(("uni.name", LEAN_CODEC[enc_eff], "set", cps(n), "-"))
+            info.append((inp, mem_legacy, lb, ub, rec_err, res, enc_eff))
     ans = drv.batch(reqs)
     for rq, a, (inp, mem_legacy, lb, ub, rec_err, res, enc) in zip(reqs, ans, info):
         ctx.corr_cases += 1
@@ -851,6 +877,7 @@ def name_path(ctx, drv, rng, quick, corp_strings, wellformed):
             impl = f"write:{rec_err}" if rec_err else "ok"
             if stage != impl:
                 ctx.disagree("name path: model != code (error)", {"input": inp, "codec": rq[1], "impl": impl, "model": stage})
+    lr16_probe(ctx)
     # old files: no unicode block, legacy name written as is (no substitution)
     olds = ["a", "\u00e9", "\u3042", "\u00e9" * 200, ""]
     reqs = []
@@ -883,6 +910,39 @@ def name_path(ctx, drv, rng, quick, corp_strings, wellformed):
             elif impl != ("ok", n):
                 ctx.fail("C19/name/no-unicode-block/roundtrip-differs", "legacy-only name does not round-trip",
                          {"op": "oldname", "s": cps(n), "enc": enc}, list(impl), cps(n))
+
+
+def lr16_probe(ctx):
+    """A legacy-only layer name (no unicode block) expressible in the save encoding must round-trip in
+    8-, 16- and 32-bit documents alike."""
+    from psd_tools import PSDImage
+    from psd_tools.constants import Tag
+    pf = core.REPO / "tests" / "psd_files"
+    for fn in ("group.psd", "colormodes/4x4_16bit_rgb.psd", "colormodes/4x4_32bit_rgb.psd"):
+        if not (pf / fn).exists():
+            ctx.skipped.append(f"legacy-only name probe: {fn} missing")
+            continue
+        for n, enc in (("\u3042", "shift_jis"), ("\u0416", "maccyrillic"), ("\u00e9", "macroman")):
+            inp = {"op": "legacyonly", "doc": fn, "s": cps(n), "enc": enc}
+            ctx.count(("legacyonly", fn, n, enc))
+            try:
+                p = PSDImage.open(str(pf / fn))
+                l = list(p.descendants())[0]
+                rec = l._record
+                if Tag.UNICODE_LAYER_NAME in rec.tagged_blocks:
+                    del rec.tagged_blocks[Tag.UNICODE_LAYER_NAME]
+                rec.name = n
+                out = io.BytesIO()
+                p.save(out, encoding=enc)
+                q = PSDImage.open(io.BytesIO(out.getvalue()), encoding=enc)
+                got = ("ok", list(q.descendants())[0].name)
+            except Exception as e:  # noqa
+                got = ("err", ecls(e))
+            if got != ("ok", n):
+                deep = fn != "group.psd" and enc != "macroman"
+                ctx.fail(SIG_LR16 if deep else f"C19/name/no-unicode-block/{fn}/{enc}/roundtrip-fails",
+                         "legacy-only layer name expressible in the save encoding does not survive save/open",
+                         inp, _r(got), cps(n))
 
 
 def _r(o):
@@ -939,6 +999,21 @@ def replay(ctx, data):
             p.save(out, encoding=inp["enc"])
             q = PSDImage.open(_io.BytesIO(out.getvalue()), encoding=inp["enc"])
             print("names after save/open ->", [cps(l.name) for l in q.descendants()][:5])
+        except Exception as e:  # noqa
+            print("raises", type(e).__name__, e)
+    elif op == "legacyonly":
+        from psd_tools import PSDImage
+        from psd_tools.constants import Tag
+        try:
+            p = PSDImage.open(str(core.REPO / "tests" / "psd_files" / inp["doc"]))
+            rec = list(p.descendants())[0]._record
+            if Tag.UNICODE_LAYER_NAME in rec.tagged_blocks:
+                del rec.tagged_blocks[Tag.UNICODE_LAYER_NAME]
+            rec.name = from_cps(inp["s"])
+            out = _io.BytesIO()
+            p.save(out, encoding=inp["enc"])
+            q = PSDImage.open(_io.BytesIO(out.getvalue()), encoding=inp["enc"])
+            print("first layer name after save/open ->", cps(list(q.descendants())[0].name))
         except Exception as e:  # noqa
             print("raises", type(e).__name__, e)
     elif op == "oldname":
